@@ -111,6 +111,7 @@ func checkC02(p *Program, r *Report) {
 	checkKeepMask(p, r)
 	checkEncodeEach(p, r)
 	checkEncodeIndependent(p, r, "C02.encode-independent")
+	checkCodecsAs(p, r, "C02")
 }
 
 // checkRangeRouting: index.RangeGet -> SlimTrie.RangeGet; RangeGet and Search
@@ -380,8 +381,19 @@ func checkEncodeEach(p *Program, r *Report) {
 			return false
 		}
 		if in, ok := v.(ssa.Instruction); ok {
-			if _, isPhi := v.(*ssa.Phi); isPhi {
-				return false
+			if ph, isPhi := v.(*ssa.Phi); isPhi {
+				// "nil unless there is a value at the index": every non-nil edge is the value at the index
+				some := false
+				for _, e := range ph.Edges {
+					if c, ok := e.(*ssa.Const); ok && c.IsNil() {
+						continue
+					}
+					if !dependsOn(e, target, d+1) {
+						return false
+					}
+					some = true
+				}
+				return some
 			}
 			var ops []*ssa.Value
 			for _, op := range in.Operands(ops) {
